@@ -480,6 +480,32 @@ where
     }
 }
 
+/// Termination condition of a run: 0 = `iterations < n`; 1 = `iterations < n & !(best objective < -1e300)` (a target that
+/// is never reached, below every objective value, written with the generic bound on a float-valued lens); 2 =
+/// `iterations < n & !OptimumReached(1e-9)` (the known optimum of the harness problems is unreachable). All three make
+/// exactly n passes.
+pub fn termination<P>(n: u32, variant: u8) -> Box<dyn Condition<P>>
+where
+    P: mahf::problems::SingleObjectiveProblem + mahf::problems::KnownOptimumProblem,
+{
+    use mahf::conditions::OptimumReached;
+    match variant {
+        1 => LessThanN::iterations(n) & !LessThanN::new(mahf::SingleObjective::try_from(-1e300).unwrap(), mahf::lens::common::BestObjectiveValueLens::<P>::new()),
+        2 => LessThanN::iterations(n) & !OptimumReached::new(1e-9).unwrap(),
+        _ => LessThanN::iterations(n),
+    }
+}
+
+/// `dispatch` with the termination condition `termination(iters, variant)`.
+pub fn dispatch_cond<V: RunVisitor>(spec: &RunSpec, v: &mut V, variant: u8) -> V::Out {
+    let n = spec.iters;
+    match spec.tpl.kind() {
+        Kind::Real => v.visit(build_real_with(&spec.tpl, &|| termination::<RealP>(n, variant)).expect("real template"), real_of(&spec.inst), spec),
+        Kind::Bits => v.visit(build_bits_with(&spec.tpl, &|| termination::<BitsP>(n, variant)).expect("bits template"), bits_of(&spec.inst), spec),
+        Kind::Perm => v.visit(build_perm_with(&spec.tpl, &|| termination::<TspP>(n, variant)).expect("perm template"), tsp_of(&spec.inst), spec),
+    }
+}
+
 /// Generic dispatch over the three problem kinds.
 pub trait RunVisitor {
     type Out;
